@@ -173,8 +173,16 @@ func (w *World) applyExpImp(s Step) *Violation {
 	w.DB = nd
 	nt := w.NewHandle(fast, cache)
 	w.DB = old
-	if _, err := nt.Load(); err != nil {
-		return bad("C10.import", "error-on-legal-request", fmt.Sprintf("Load of the empty target: %v", err))
+	// half of the imports go into a handle that was never loaded (how the
+	// library's own tests and a state-sync restore into a fresh store do it),
+	// half into one that loaded the empty store first (seed C07-4A)
+	if s.ID%2 == 0 {
+		if _, err := nt.Load(); err != nil {
+			return bad("C10.import", "error-on-legal-request", fmt.Sprintf("Load of the empty target: %v", err))
+		}
+		w.P.Inc("expimp.target-loaded-first")
+	} else {
+		w.P.Inc("expimp.target-never-loaded")
 	}
 	imp, err := nt.Import(s.N)
 	if err != nil {
